@@ -165,7 +165,7 @@ def gen_case(item, rng, tier):
     else:
         nt = rng.choice([60, 120, 200, 300])
         tb = rng.random()
-        words = [G.stream_word(rng, tb) for _ in range(nt)]
+        words = G.stream_words(rng, nt, tb)
         force = None
     events = []
     nev = rng.randrange(0, max(1, nt // 16)) if rng.random() > 0.25 else 0
